@@ -52,8 +52,9 @@ def gen_cases(tier, seed):
         cases.append({"kind": "rand", "seed": seed * 110017 + i, "n": per, "len": length, "component": COMPONENTS[i % len(COMPONENTS)] if i % 3 else "all"})
     for comp in COMPONENTS:
         cases.append({"kind": "exh", "component": comp, "L": 4 if thorough else 3, "seed": seed})
-    # NOT registered yet: the enumerated wait-graph component (kind "waitgraph" in run_case) reports a read-out divergence on the unchanged
-    # tree for some wait/wait/x sequences that has not been triaged (genuine backend difference or harness artefact?) - see DESIGN 11.5
+    # NOT registered: the enumerated wait-graph component (kind "waitgraph" in run_case) calls release_waiters directly on invocations that are
+    # not final, which the real code never does; the two stores differ there (harness artefact, see DESIGN 11.5). To repair: release through the
+    # real finishing path (status walk to SUCCESS) and size the enumeration for the quick tier.
     # cases.append({"kind": "waitgraph", "L": 4 if thorough else 3, "seed": seed})
     return cases
 
